@@ -708,11 +708,11 @@ def shards(tier: str, seed: int) -> list[dict]:
     out = []
     for i in range(16):
         out.append({
-            "static_pkgs": 12 if quick else 400, "importable_pkgs": 6 if quick else 150, "namespaces": 2 if quick else 30,
+            "static_pkgs": 20 if quick else 400, "importable_pkgs": 8 if quick else 150, "namespaces": 3 if quick else 30,
             "builtins": [BUILTINS[i % len(BUILTINS)]],
             "stdlib": [STDLIB[(2 * i + k) % len(STDLIB)] for k in range(2)] if quick else [STDLIB[(3 * i + k) % len(STDLIB)] for k in range(3)],
             "own": (["griffe"] if i == 0 else ["_griffe"] if i == 1 else []),
-            "cli": 4 if quick else 50, "depth": 2 if quick else 3, "index": i,
+            "cli": 6 if quick else 50, "depth": 2 if quick else 3, "index": i,
         })
     return out
 
